@@ -70,7 +70,10 @@ def run_case(case, ctx):
     if case["cn"] == "h.MM am" and 1 <= case["mi"] <= 12 and case["o"] == "clock-day":
         # 'at 1.05 am friday': the library's dd.mm rule explicitly allows 'dd.mm am' (German 'am' = on)
         return {"st": "excl", "sig": "h.MM am + day: also 'dd.mm' followed by German 'am <day>'", "key": key, "cls": cls}
-    if case["o"] == "clock-day" and (case["h"] in (0, 12)) and day.startswith("am ") and clock.startswith("12"):
+    if case["o"] == "clock-day" and (case["h"] in (0, 12)) and day.startswith("am ") and clock.startswith("12") \
+            and case["cn"] not in ("HH:MM Uhr", "H:MMuhr", "H:MMh", "H:MM h", "H.MM Uhr", "H Uhr", "Huhr", "Hh", "H h"):
+        # (with a clock word between the digits and 'am' - '12:30 Uhr am Freitag' - the 'am' is not *directly* after the
+        # clock time and the library reads it as the German preposition; the four-digit forms stay excluded)
         return {"st": "excl", "sig": "12:xx-followed-by-german-am", "key": key, "cls": cls}
     rd = C.api(ctx, day, ts)
     dv = C.resv(rd)
